@@ -93,6 +93,11 @@ class Partition:
         self.ivfc_hash_tree = IVFCHashTree(self.dpfs_lv3_file, self.ivfc, self.master_hashes, lv4_fp=lv4_fp,
                                            update_master_hashes_callback=self._update_hashes)
 
+    def close(self):
+        """Close the level files, so that further reads and writes through this partition raise ValueError."""
+        self.dpfs_lv3_file.close()
+        self._fp.close()
+
     def _update_hashes(self, master_hashes: 'List[bytes]'):
         self.master_hashes = master_hashes
 
